@@ -33,6 +33,8 @@ def check(c: Check):
     clause_d(c)
     clause_e(c)
     clause_f(c)
+    from .common import check_references_complete
+    check_references_complete(c, 'C08-g', floor=25)
 
 
 # ---------------------------------------------------------------- a
